@@ -7,8 +7,14 @@ import SlipVerif.Driver.Util
    sequence : L[<obj>,…] (list) | V[<obj>,…] (vector) | S[<obj>,…] (string, characters only)
    function : car cdr char-code 1+ neg mod2 upcase evenp oddp plusp null consp eqto:<obj> ltthan:<int>
               eq eql equal < <= > >= = char= char< sameparity + - cons list max
+              seqcount:<obj> seqfind:<obj> seqposition:<obj> seqremove:<obj> seqmember:<obj> seqdedup
+              seqreverse seqlength seqsum seqsubsetp seqsearch seqsameset seqsamecount:<obj> seqshorter
+              (user lambdas that call sequence functions on elements that are lists)
    fields   : item new seq seq2 seqs(= s;s;…) start end start1 end1 start2 end2 key test testnot pred
               count fromend init rtype fn result
+              self=key|pred|fn|test|test1 [base=<function>] : that argument is the user function
+              (lambda (x) (if (consp x) (funcall f x) (base x))) re-entering the call itself (`f`)
+              on nested lists (two-argument form for test); base defaults to identity / equal
    reply    : ok <obj> | ok <sequence> | err bounds|type|arg | bad-request <why>
    An application outside a function's domain is a bad-request (the harness only generates
    well-typed calls). -/
@@ -124,6 +130,21 @@ def parseFn (s : String) : Option Fn :=
   | ["cons"] => some .cons
   | ["list"] => some .list
   | ["max"] => some .max
+  | ["seqcount", o] => (parseObjStr o).map .seqCount
+  | ["seqfind", o] => (parseObjStr o).map .seqFind
+  | ["seqposition", o] => (parseObjStr o).map .seqPosition
+  | ["seqremove", o] => (parseObjStr o).map .seqRemove
+  | ["seqmember", o] => (parseObjStr o).map .seqMember
+  | ["seqdedup"] => some .seqDedup
+  | ["seqreverse"] => some .seqReverse
+  | ["seqlength"] => some .seqLength
+  | ["seqsum"] => some .seqSum
+  | ["seqmin"] => some .seqMin
+  | ["seqsubsetp"] => some .seqSubsetp
+  | ["seqsearch"] => some .seqSearch
+  | ["seqsameset"] => some .seqSameSet
+  | ["seqsamecount", o] => (parseObjStr o).map .seqSameCount
+  | ["seqshorter"] => some .seqShorter
   | _ => none
 
 def parseKind (s : String) : Option Kind :=
@@ -173,11 +194,49 @@ def boolField (fs : Fields) (k : String) : R Bool :=
 
 def illTyped {α} : R α := .error "bad-request ill-typed"
 
+/-! functions with explicit domains: `none` = the application is outside the domain -/
+abbrev F1 := Obj → Option Obj
+abbrev F2 := Obj → Obj → Option Obj
+abbrev FN := List Obj → Option Obj
+
+def tot1 (f : F1) (x : Obj) : Obj :=
+  match f x with
+  | some v => v
+  | none => .nil
+
+def totKey (f : Option F1) (x : Obj) : Obj :=
+  match f with
+  | none => x
+  | some f => tot1 f x
+
+def tot2b (f : F2) (a b : Obj) : Bool :=
+  match f a b with
+  | some v => truthy v
+  | none => false
+
+def totN (f : FN) (xs : List Obj) : Obj :=
+  match f xs with
+  | some v => v
+  | none => .nil
+
+def fn1 (f : Fn) : F1 := fun x => f.call [x]
+def fn2 (f : Fn) : F2 := fun a b => f.call [a, b]
+def fnN (f : Fn) : FN := fun xs => f.call xs
+
+/-- overrides: the user function of one role and the sequence(s), used when the call re-enters itself -/
+structure Ov where
+  key : Option F1 := none
+  pred : Option F1 := none
+  test : Option F2 := none
+  fn : Option FN := none
+  seq : Option Seq := none
+  seq2 : Option Seq := none
+
 /-- every application the evaluation may perform must be inside the function's domain -/
-def domKeys (key : Option Fn) (l : List Obj) : R (List Obj) :=
+def domKeys (key : Option F1) (l : List Obj) : R (List Obj) :=
   match key with
   | none => .ok l
-  | some k => match l.mapM (fun x => k.call [x]) with
+  | some k => match l.mapM k with
     | some ks => .ok ks
     | none => illTyped
 
@@ -185,68 +244,103 @@ def domAll (xs : List (Option Obj)) : R Unit := if xs.all Option.isSome then .ok
 
 structure KwIn where
   kw : Kw
-  key : Option Fn
-  test : Option Fn      -- the function given as :test or :test-not
+  key : Option F1
+  test : Option F2      -- the function given as :test or :test-not
+
+def getSeq (ov : Ov) (fs : Fields) : R Seq :=
+  match ov.seq with
+  | some s => .ok s
+  | none => reqField fs "seq" parseSeq
+
+def getSeq2 (ov : Ov) (fs : Fields) : R Seq :=
+  match ov.seq2 with
+  | some s => .ok s
+  | none => reqField fs "seq2" parseSeq
+
+def getKey (ov : Ov) (fs : Fields) : R (Option F1) :=
+  match ov.key with
+  | some k => .ok (some k)
+  | none => do
+    let k ← optField fs "key" parseFn
+    pure (k.map fn1)
 
 /-- read start end key test testnot count fromend -/
-def readKw (fs : Fields) (negateFn : Bool := false) : R KwIn := do
+def readKw (ov : Ov) (fs : Fields) (negateFn : Bool := false) : R KwIn := do
   let start ← natField fs "start"
   let stop ← natField fs "end"
-  let key ← optField fs "key" parseFn
+  let key ← getKey ov fs
   let test ← optField fs "test" parseFn
   let testnot ← optField fs "testnot" parseFn
   let count ← optField fs "count" String.toInt?
   let fromEnd ← boolField fs "fromend"
   if test.isSome && testnot.isSome then .error "bad-request test-and-testnot" else
-  let tf := match test, testnot with
-    | some f, _ => some f
-    | none, some f => some f
-    | none, none => none
+  let tf : Option F2 := match ov.test, test, testnot with
+    | some f, _, _ => some f
+    | none, some f, _ => some (fn2 f)
+    | none, none, some f => some (fn2 f)
+    | none, none, none => none
   let kw : Kw := {
     start := start.getD 0, stop := stop,
-    key := Fn.app1 key,
+    key := totKey key,
     test := match tf with
-      | some f => f.test2
+      | some f => tot2b f
       | none => fun a b => decide (a = b),
     negate := testnot.isSome != negateFn,
     count := count, fromEnd := fromEnd }
   pure ⟨kw, key, tf⟩
 
-def okObj (o : Obj) : String := "ok " ++ showObj o
-def okSeq (s : Seq) : String := "ok " ++ showSeq s
+inductive Reply where
+  | obj (o : Obj)
+  | seq (s : Seq)
+  | err (e : Err)
 
 def showErr : Err → String
   | .bounds => "err bounds"
   | .type => "err type"
   | .arg => "err arg"
 
-def exObj : Except Err Obj → String
-  | .ok o => okObj o
-  | .error e => showErr e
+def Reply.show : Reply → String
+  | .obj o => "ok " ++ showObj o
+  | .seq s => "ok " ++ showSeq s
+  | .err e => showErr e
 
-def exSeq : Except Err Seq → String
-  | .ok s => okSeq s
-  | .error e => showErr e
+def exObj : Except Err Obj → Reply
+  | .ok o => .obj o
+  | .error e => .err e
+
+def exSeq : Except Err Seq → Reply
+  | .ok s => .seq s
+  | .error e => .err e
+
+/-- the value a nested call hands back to the user function that made it -/
+def replyObj : R Reply → Option Obj
+  | .ok (.obj o) => some o
+  | .ok (.seq s) => some (Obj.ofList s.elems)
+  | _ => none
 
 /-- the target (item or predicate) of a find-like call with its domain check over the sequence -/
-def readTarget (fs : Fields) (mode : String) (k : KwIn) (elems : List Obj) : R Target := do
+def readTarget (ov : Ov) (fs : Fields) (mode : String) (k : KwIn) (elems : List Obj) : R Target := do
   let keys ← domKeys k.key elems
   if mode == "item" then
     let item ← reqField fs "item" parseObjStr
     match k.test with
-    | some f => domAll (keys.map (fun y => f.call [item, y]))
+    | some f => domAll (keys.map (fun y => f item y))
     | none => pure ()
     pure (.item item)
   else
-    let p ← reqField fs "pred" parseFn
-    domAll (keys.map (fun y => p.call [y]))
-    pure (.pred p.pred1)
+    let p : F1 ← match ov.pred with
+      | some p => pure p
+      | none => do
+        let f ← reqField fs "pred" parseFn
+        pure (fn1 f)
+    domAll (keys.map p)
+    pure (.pred (fun x => truthy (tot1 p x)))
 
 /-- all pairs of keys must be comparable by the test -/
-def domPairs (test : Option Fn) (ks1 ks2 : List Obj) : R Unit :=
+def domPairs (test : Option F2) (ks1 ks2 : List Obj) : R Unit :=
   match test with
   | none => .ok ()
-  | some f => domAll (ks1.flatMap (fun a => ks2.flatMap (fun b => [f.call [a, b], f.call [b, a]])))
+  | some f => domAll (ks1.flatMap (fun a => ks2.flatMap (fun b => [f a b, f b a])))
 
 def splitMode (name : String) : String × String :=
   if name.endsWith "-if-not" then ((name.dropEnd 7).toString, "ifnot")
@@ -257,18 +351,22 @@ def seqListOnly (s : Seq) : R (List Obj) :=
   if s.kind = .list then .ok s.elems else .error "bad-request list-only"
 
 /-- n-ary function over argument tuples, with domain check on every tuple -/
-def readTupleFn (fs : Fields) (seqs : List (List Obj)) : R (List Obj → Obj) := do
-  let f ← reqField fs "fn" parseFn
-  domAll ((tuples seqs).map f.call)
-  pure f.app
+def readTupleFn (ov : Ov) (fs : Fields) (seqs : List (List Obj)) : R (List Obj → Obj) := do
+  let f : FN ← match ov.fn with
+    | some f => pure f
+    | none => do
+      let f ← reqField fs "fn" parseFn
+      pure (fnN f)
+  domAll ((tuples seqs).map f)
+  pure (totN f)
 
-def run (name : String) (fs : Fields) : R String := do
+def run (ov : Ov) (name : String) (fs : Fields) : R Reply := do
   let (base, mode) := splitMode name
   match base with
   | "find" | "position" | "count" | "remove" | "delete" | "substitute" | "nsubstitute" =>
-    let s ← reqField fs "seq" parseSeq
-    let k ← readKw fs (mode == "ifnot")
-    let tg ← readTarget fs mode k s.elems
+    let s ← getSeq ov fs
+    let k ← readKw ov fs (mode == "ifnot")
+    let tg ← readTarget ov fs mode k s.elems
     match base with
     | "find" => pure (exObj (findS k.kw tg s))
     | "position" => pure (exObj (positionS k.kw tg s))
@@ -278,9 +376,9 @@ def run (name : String) (fs : Fields) : R String := do
       let new ← reqField fs "new" parseObjStr
       pure (exSeq (substituteS new k.kw tg s))
   | "member" | "assoc" | "rassoc" =>
-    let s ← reqField fs "seq" parseSeq
+    let s ← getSeq ov fs
     let l ← seqListOnly s
-    let k ← readKw fs (mode == "ifnot")
+    let k ← readKw ov fs (mode == "ifnot")
     let proj : List Obj := match base with
       | "assoc" => l.filterMap (fun e => match e with
           | .cons a _ => some a
@@ -290,25 +388,25 @@ def run (name : String) (fs : Fields) : R String := do
           | _ => none)
       | _ => l
     if base != "member" && !(l.all (fun e => e = .nil || !atomic e)) then illTyped else
-    let tg ← readTarget fs mode k proj
+    let tg ← readTarget ov fs mode k proj
     match base with
-    | "member" => pure (okObj (Obj.ofList (member (k.kw.matcher tg) l)))
-    | "assoc" => pure (okObj (optObj (assoc (k.kw.matcher tg) l)))
-    | _ => pure (okObj (optObj (rassoc (k.kw.matcher tg) l)))
-  | _ => runRest name fs
+    | "member" => pure (.obj (Obj.ofList (member (k.kw.matcher tg) l)))
+    | "assoc" => pure (.obj (optObj (assoc (k.kw.matcher tg) l)))
+    | _ => pure (.obj (optObj (rassoc (k.kw.matcher tg) l)))
+  | _ => runRest ov name fs
 where
-  runRest (name : String) (fs : Fields) : R String := do
+  runRest (ov : Ov) (name : String) (fs : Fields) : R Reply := do
   match name with
   | "remove-duplicates" | "delete-duplicates" =>
-    let s ← reqField fs "seq" parseSeq
-    let k ← readKw fs
+    let s ← getSeq ov fs
+    let k ← readKw ov fs
     let keys ← domKeys k.key s.elems
     domPairs k.test keys keys
     pure (exSeq (removeDuplicatesS k.kw s))
   | "search" | "mismatch" =>
-    let s1 ← reqField fs "seq" parseSeq
-    let s2 ← reqField fs "seq2" parseSeq
-    let k ← readKw fs
+    let s1 ← getSeq ov fs
+    let s2 ← getSeq2 ov fs
+    let k ← readKw ov fs
     let k1 ← domKeys k.key s1.elems
     let k2 ← domKeys k.key s2.elems
     domPairs k.test k1 k2
@@ -319,84 +417,86 @@ where
     if name == "search" then pure (exObj (searchS k.kw (a1.getD 0) b1 (a2.getD 0) b2 s1 s2))
     else pure (exObj (mismatchS k.kw (a1.getD 0) b1 (a2.getD 0) b2 s1 s2))
   | "subseq" =>
-    let s ← reqField fs "seq" parseSeq
+    let s ← getSeq ov fs
     let a ← natField fs "start"
     let b ← natField fs "end"
     pure (exSeq (subseqS (a.getD 0) b s))
   | "fill" =>
-    let s ← reqField fs "seq" parseSeq
+    let s ← getSeq ov fs
     let item ← reqField fs "item" parseObjStr
     let a ← natField fs "start"
     let b ← natField fs "end"
     pure (exSeq (fillS item (a.getD 0) b s))
   | "replace" =>
-    let s1 ← reqField fs "seq" parseSeq
-    let s2 ← reqField fs "seq2" parseSeq
+    let s1 ← getSeq ov fs
+    let s2 ← getSeq2 ov fs
     let a1 ← natField fs "start1"
     let b1 ← natField fs "end1"
     let a2 ← natField fs "start2"
     let b2 ← natField fs "end2"
     pure (exSeq (replaceS (a1.getD 0) b1 (a2.getD 0) b2 s1 s2))
   | "reverse" | "nreverse" =>
-    let s ← reqField fs "seq" parseSeq
+    let s ← getSeq ov fs
     pure (exSeq (reverseS s))
   | "sort" | "stable-sort" | "sort-check" =>
-    let s ← reqField fs "seq" parseSeq
+    let s ← getSeq ov fs
     let pred ← reqField fs "pred" parseFn
-    let key ← optField fs "key" parseFn
+    let key ← getKey ov fs
     let keys ← domKeys key s.elems
-    domPairs (some pred) keys keys
+    domPairs (some (fn2 pred)) keys keys
     if name == "sort-check" then
       let r ← reqField fs "result" parseSeq
-      pure (okObj (ofBool (decide (r.kind = s.kind) && sortOk pred.test2 (Fn.app1 key) s.elems r.elems)))
-    else pure (exSeq (stableSortS pred.test2 (Fn.app1 key) s))
+      pure (.obj (ofBool (decide (r.kind = s.kind) && sortOk pred.test2 (totKey key) s.elems r.elems)))
+    else pure (exSeq (stableSortS pred.test2 (totKey key) s))
   | "merge" =>
-    let s1 ← reqField fs "seq" parseSeq
-    let s2 ← reqField fs "seq2" parseSeq
+    let s1 ← getSeq ov fs
+    let s2 ← getSeq2 ov fs
     let rt ← reqField fs "rtype" parseKind
     let pred ← reqField fs "pred" parseFn
-    let key ← optField fs "key" parseFn
+    let key ← getKey ov fs
     let k1 ← domKeys key s1.elems
     let k2 ← domKeys key s2.elems
-    domPairs (some pred) k1 k2
-    pure (exSeq (mergeS rt pred.test2 (Fn.app1 key) s1 s2))
+    domPairs (some (fn2 pred)) k1 k2
+    pure (exSeq (mergeS rt pred.test2 (totKey key) s1 s2))
   | "union" | "intersection" | "set-difference" | "subsetp" | "union-check" | "intersection-check"
   | "set-difference-check" =>
-    let s1 ← reqField fs "seq" parseSeq
-    let s2 ← reqField fs "seq2" parseSeq
+    let s1 ← getSeq ov fs
+    let s2 ← getSeq2 ov fs
     let l1 ← seqListOnly s1
     let l2 ← seqListOnly s2
-    let k ← readKw fs
+    let k ← readKw ov fs
     let k1 ← domKeys k.key l1
     let k2 ← domKeys k.key l2
     domPairs k.test (k1 ++ k2) (k1 ++ k2)
     match name with
-    | "union" => pure (okSeq ⟨.list, union k.kw.eqv l1 l2⟩)
-    | "intersection" => pure (okSeq ⟨.list, intersection k.kw.eqv l1 l2⟩)
-    | "set-difference" => pure (okSeq ⟨.list, setDifference k.kw.eqv l1 l2⟩)
-    | "subsetp" => pure (okObj (ofBool (subsetp k.kw.eqv l1 l2)))
+    | "union" => pure (.seq ⟨.list, union k.kw.eqv l1 l2⟩)
+    | "intersection" => pure (.seq ⟨.list, intersection k.kw.eqv l1 l2⟩)
+    | "set-difference" => pure (.seq ⟨.list, setDifference k.kw.eqv l1 l2⟩)
+    | "subsetp" => pure (.obj (ofBool (subsetp k.kw.eqv l1 l2)))
     | _ =>
       let r ← reqField fs "result" parseSeq
       let rl ← seqListOnly r
       match name with
-      | "union-check" => pure (okObj (ofBool (unionOk k.kw.eqv l1 l2 rl)))
-      | "intersection-check" => pure (okObj (ofBool (intersectionOk k.kw.eqv l1 l2 rl)))
-      | _ => pure (okObj (ofBool (setDifferenceOk k.kw.eqv l1 l2 rl)))
+      | "union-check" => pure (.obj (ofBool (unionOk k.kw.eqv l1 l2 rl)))
+      | "intersection-check" => pure (.obj (ofBool (intersectionOk k.kw.eqv l1 l2 rl)))
+      | _ => pure (.obj (ofBool (setDifferenceOk k.kw.eqv l1 l2 rl)))
   | "every" | "some" | "notany" | "notevery" | "mapcar" | "map" =>
-    let ss ← reqField fs "seqs" parseSeqs
+    let ss ← match ov.seq with
+      | some s => pure [s]
+      | none => reqField fs "seqs" parseSeqs
     let ls := ss.map Seq.toList
-    let f ← readTupleFn fs ls
+    let f ← readTupleFn ov fs ls
     match name with
-    | "every" => pure (okObj (every f ls))
-    | "some" => pure (okObj (some' f ls))
-    | "notany" => pure (okObj (notany f ls))
-    | "notevery" => pure (okObj (notevery f ls))
+    | "every" => pure (.obj (every f ls))
+    | "some" => pure (.obj (some' f ls))
+    | "notany" => pure (.obj (notany f ls))
+    | "notevery" => pure (.obj (notevery f ls))
     | "mapcar" =>
-      if ss.all (fun s => s.kind = .list) then pure (okSeq ⟨.list, mapcar f ls⟩)
+      if ss.all (fun s => s.kind = .list) then pure (.seq ⟨.list, mapcar f ls⟩)
       else .error "bad-request list-only"
     | _ =>
       match fs.get "rtype" with
-      | some "nil" => pure (okObj .nil)
+      | some "nil" => pure (.obj .nil)
       | _ =>
         let rt ← reqField fs "rtype" parseKind
         pure (exSeq (mapS rt f ss))
@@ -405,15 +505,15 @@ where
     let rt ← reqField fs "rtype" parseKind
     pure (exSeq (concatenateS rt ss))
   | "reduce" =>
-    let s ← reqField fs "seq" parseSeq
+    let s ← getSeq ov fs
     let f ← reqField fs "fn" parseFn
-    let key ← optField fs "key" parseFn
+    let key ← getKey ov fs
     let init ← optField fs "init" parseObjStr
     let fromEnd ← boolField fs "fromend"
     let a ← natField fs "start"
     let b ← natField fs "end"
     match bounds (a.getD 0) b s.elems.length with
-    | .error e => pure (showErr e)
+    | .error e => pure (.err e)
     | .ok (a', b') =>
       let ks ← domKeys key (mid a' b' s.elems)
       -- domain: run the fold with Option
@@ -431,15 +531,61 @@ where
           | x :: r => r.foldl (fun acc y => step acc y true) (some x)
       match res with
       | none => illTyped
-      | some _ => pure (exObj (reduceS (fun x y => f.app [x, y]) (f.app []) (Fn.app1 key) init fromEnd (a.getD 0) b s))
+      | some _ => pure (exObj (reduceS (fun x y => f.app [x, y]) (f.app []) (totKey key) init fromEnd (a.getD 0) b s))
   | _ => .error "bad-request function"
+
+/-- nesting depth the recursion of a self-calling user function may reach (the harness generates
+    data of depth ≤ 3) -/
+def selfFuel : Nat := 6
+
+/-- `self=<role>`: the user function of that role re-enters the call itself on nested lists -/
+def runSelf (name : String) (fs : Fields) : R Reply :=
+  match fs.get "self" with
+  | none => run {} name fs
+  | some role => do
+    let base ← optField fs "base" parseFn
+    -- the user function re-enters the call itself, not the relation checker applied to its result
+    let inner := if name.endsWith "-check" then (name.dropEnd 6).toString else name
+    match role with
+    | "key" =>
+      let b : F1 := match base with
+        | some f => fn1 f
+        | none => fun x => some x
+      let F : F1 → List Obj → Option Obj := fun g l =>
+        replyObj (run { key := some g, seq := some ⟨.list, l⟩ } inner fs)
+      run { key := some (selfApply F b selfFuel) } name fs
+    | "pred" =>
+      let f ← need "base" base
+      let F : F1 → List Obj → Option Obj := fun g l =>
+        replyObj (run { pred := some g, seq := some ⟨.list, l⟩ } inner fs)
+      run { pred := some (selfApply F (fn1 f) selfFuel) } name fs
+    | "fn" =>
+      let f ← need "base" base
+      let one (g : F1) : FN := fun xs => match xs with
+        | [x] => g x
+        | _ => none
+      let F : F1 → List Obj → Option Obj := fun g l =>
+        replyObj (run { fn := some (one g), seq := some ⟨.list, l⟩ } inner fs)
+      run { fn := some (one (selfApply F (fn1 f) selfFuel)) } name fs
+    | "test" =>
+      let b : F2 := match base with
+        | some f => fn2 f
+        | none => fn2 .equal
+      let F : F2 → List Obj → List Obj → Option Obj := fun g la lb =>
+        replyObj (run { test := some g, seq := some ⟨.list, la⟩, seq2 := some ⟨.list, lb⟩ } inner fs)
+      run { test := some (selfApply2 F b selfFuel) } name fs
+    | "test1" =>
+      let F : F2 → List Obj → Option Obj := fun g l =>
+        replyObj (run { test := some g, seq := some ⟨.list, l⟩ } inner fs)
+      run { test := some (selfApplyT F selfFuel) } name fs
+    | _ => .error "bad-request self"
 
 def handle (entry : String) (args : List String) : String :=
   match parseFields args with
   | none => "bad-request fields"
   | some fs =>
-    match run entry fs with
-    | .ok s => s
+    match runSelf entry fs with
+    | .ok r => r.show
     | .error s => s
 
 end SlipVerif.Driver.Seq
